@@ -339,6 +339,14 @@ def step (st : St) (op impl : List String) : St × Verdict :=
       else if r.startsWith "env:" then (st, .ok)
       else (st, .mismatch "ok")
     | _ => (st, .mismatch "ok")
+  | ["histsnap", _, _] =>
+    match impl with
+    | ["ok"] => (st, .ok)
+    | [r] =>
+      if r.startsWith "bad:" then
+        (st, .oracle s!"C13: a chat-history snapshot handed to a caller changed when the history was modified afterwards (the caller reads the group's own array without its lock): {r}")
+      else if r.startsWith "env:" then (st, .ok) else (st, .mismatch "ok")
+    | _ => (st, .mismatch "ok")
   | ["whipdl"] =>
     -- finding P14 (C13): the forced schedule must terminate
     match impl with
